@@ -519,6 +519,27 @@ def do_compute(m: Machine, step):
         L.sim3_inverse(ps[j])
         L.so3_from_se3(ps[i])
         m.probe_hit("compute_lie")
+    elif what == "helpers":
+        # conversion helpers fed with the LIVE arrays / matrices of an object
+        T = evo.trajectory
+        tr = evo.transformations
+        pos, quat = a.obj.positions_xyz, a.obj.orientations_quat_wxyz
+        poses = a.obj.poses_se3
+        T.xyz_quat_wxyz_to_se3_poses(pos, quat)
+        T.se3_poses_to_xyz_quat_wxyz(poses)
+        i = step.get("i", 0) % len(poses)
+        j = step.get("j", 1) % len(poses)
+        tr.quaternion_matrix(quat[i])
+        tr.quaternion_from_matrix(poses[i])
+        tr.euler_from_matrix(poses[j], "sxyz")
+        tr.euler_from_quaternion(quat[j])
+        tr.quaternion_multiply(quat[i], quat[j])
+        tr.quaternion_inverse(quat[i])
+        tr.quaternion_slerp(quat[i], quat[j], 0.3)
+        T.calc_angular_speed(poses[i], poses[j], 0.0, 1.0)
+        if a.stamped and a.model.n >= 2 and a.model.stamps_strictly_increasing():
+            evo.pandas_bridge.trajectories_stats_to_df({"a": a.obj})
+        m.probe_hit("compute_helpers")
     elif what == "geometry":
         pos = a.obj.positions_xyz
         evo.geometry.arc_len(pos)
@@ -965,7 +986,7 @@ def gen_step(m: Machine, rng, uid):
                        "filter_by_motion", "matching_time_indices", "umeyama",
                        "umeyama", "write_tum", "write_kitti", "to_df",
                        "merge_results", "result_io", "ape", "rpe", "lie",
-                       "geometry", "filter_pairs"] +
+                       "geometry", "filter_pairs", "helpers"] +
                       (["plot"] if rng.random() < 0.15 else []))
     st = {"op": "compute", "uid": uid, "what": what, "a": e.uid}
     same = [x for x in alive if x.model.n == n and x is not e]
@@ -982,7 +1003,7 @@ def gen_step(m: Machine, rng, uid):
             st["pairs_from_reference"] = rng.random() < 0.3
         st["scale"] = rng.random() < 0.5
         st["contiguous"] = rng.random() < 0.5
-    elif what == "lie":
+    elif what in ("lie", "helpers"):
         st["i"], st["j"] = rng.randrange(64), rng.randrange(64)
     elif what == "filter_pairs":
         st["delta_i"] = rng.choice([1, 2, 3])
